@@ -368,6 +368,10 @@ def harness_check(case, adj, harness, workdir):
             return ("harness:run",
                     f"generated harness aborts (rc={run.returncode}): "
                     f"{' | '.join(err[:4])[:400]}")
+        if "PASSED:" not in out and ("Infinity" in out or "NaN" in out):
+            # the random test vector overflows single/double precision at
+            # n = 20 (e.g. a value doubled in a loop nest): no verdict
+            return ("harness:overflow", out.strip()[:200])
         if "PASSED:" not in out:
             return ("harness:failed",
                     f"generated harness reports: {out.strip()[:300]}")
@@ -415,7 +419,9 @@ def evaluate(case, want_harness, workdir):
                 res20["harness_run"] = True
                 res20["harness_refused"] = False
                 return res20
-        if bad:
+        if bad and bad[0] == "harness:overflow":
+            res["harness_overflow"] = True
+        elif bad:
             res.update(status="fail", bucket=bad[0], msg=bad[1],
                        harness=harness)
     return res
@@ -671,6 +677,34 @@ def cls_unlowered_section_scalar(case):
     return False
 
 
+def cls_lbound_of_section(case):
+    """After PSyAD's documented pre-processing (array notation -> loops,
+    then expansion through SymPy) an expression contains LBOUND/UBOUND
+    applied to a full SECTION 'x(:)' of an array x whose declared lower
+    bound is not 1 (the bounds of a section differ from those of the
+    array itself): c(2:n) with 'c(:) = p * a(1:n-1)'."""
+    from psyclone.psyad.transformations.preprocess import preprocess_trans
+    from psyclone.psyir.nodes import ArrayReference, IntrinsicCall, Literal
+    from psyclone.psyir.nodes import Range
+    from psyclone.psyir.symbols import ArrayType
+    psy.reset_state()
+    tree = psy.read(case["source"])
+    preprocess_trans(tree, list(case["active"]))
+    for call in tree.walk(IntrinsicCall):
+        if call.intrinsic not in (IntrinsicCall.Intrinsic.LBOUND,
+                                  IntrinsicCall.Intrinsic.UBOUND):
+            continue
+        arg = call.arguments[0]
+        if not (isinstance(arg, ArrayReference) and arg.walk(Range)):
+            continue
+        for dim in arg.symbol.datatype.shape:
+            if isinstance(dim, ArrayType.ArrayBounds) and not (
+                    isinstance(dim.lower, Literal) and
+                    dim.lower.value == "1"):
+                return True
+    return False
+
+
 def cls_harness_nonreal_arg(case):
     """Harness failures of kernels that have an integer or logical scalar
     argument which does not dimension an array argument (the harness
@@ -712,6 +746,7 @@ CLASSIFIERS = {
     "zero_trip_reversed": _exact_only(cls_zero_trip_reversed),
     "loop_offset_precedence": _exact_only(cls_loop_offset_precedence),
     "unlowered_section_scalar": _exact_only(cls_unlowered_section_scalar),
+    "lbound_of_section": _exact_only(cls_lbound_of_section),
     "harness_nonreal_arg": cls_harness_nonreal_arg,
 }
 
@@ -764,6 +799,8 @@ def run(ctx):
         if res["harness_run"]:
             ctx.label("harness_run" + ("" if case["harness_ok"]
                                        else "_nonreal_args"))
+        if res.get("harness_overflow"):
+            ctx.label("harness_inconclusive_overflow")
         if status == "fail":
             case = res.get("case", case)
             case["adjoint"] = res["adjoint"]
